@@ -20,7 +20,7 @@ def c10_functional(S, L):
     o.append('      for (unsigned k = 0; k < %d; k++) if (k < in.len[i]) ref[total + 2 + k] = in.str[i][k];' % L)
     o.append('      total += 2u + in.len[i]; }')
     o.append('  }')
-    o.append('  uint8_t *packed = vp_obj_from(in.packed0, %d);' % (P + 8))
+    o.append('  uint8_t *packed = vp_pdu_from(in.packed0, %d);' % (P + 8))
     o.append('  VssDataStringArray_t arr; arr.data = packed; arr.data_length = in.dl0;')
     o.append('  Avtp_Vss_SerializeStringArray(&arr, srcp, in.n);')
     o.append('  VP_ASSERT(arr.data_length == total, "C10 packing records the total byte length");')
@@ -69,7 +69,7 @@ def c10_extent(lens, req):
     for i, l in enumerate(lens):
         o.append('  src[%d].data_length = %d; src[%d].data = (char *)vp_obj_from(in.bytes + %d, %d); srcp[%d] = &src[%d];' % (i, l, i, off, l, i, i))
         off += l
-    o.append('  uint8_t *packed = vp_obj_from(in.packed0, %d);' % total)
+    o.append('  uint8_t *packed = vp_pdu_from(in.packed0, %d);' % total)
     o.append('  VssDataStringArray_t arr; arr.data = packed; arr.data_length = 0xFFFF;')
     o.append('  Avtp_Vss_SerializeStringArray(&arr, srcp, %d);' % S)
     o.append('  VP_ASSERT(arr.data_length == %d, "C10 packing into an exact-extent buffer records the total byte length");' % total)
@@ -112,7 +112,7 @@ def c10_count_many(n):
     o.append('typedef struct { uint8_t dummy; } vp_in_t;')
     o.append('void harness(void) {')
     o.append('  VP_INPUT(vp_in_t, in);')
-    o.append('  uint8_t *packed = vp_obj(%d); memset(packed, 0, %d);' % (2 * n, 2 * n))
+    o.append('  uint8_t *packed = vp_pdu(%d); memset(packed, 0, %d);' % (2 * n, 2 * n))
     o.append('  VssDataStringArray_t arr; arr.data = packed; arr.data_length = %d;' % (2 * n))
     o.append('  VP_ASSERT(Avtp_Vss_GetVSSDataStringArrayLength(&arr) == %d, "C10 counting an array of more than 255 strings returns the true count");' % n)
     o.append('  VP_REACH("c10 count end");')
